@@ -114,7 +114,9 @@ def judge_program(tag, prog, E, viol, cnt):
     starved = [v for v in feas if marg.get(v, 0) == 0]
     if starved and not raised:
         viol.append(("earlier-variable-value-starved", "%s: complete enumeration of %d paths: a never takes %s although feasible "
-                     "(feasible %s, marginal %s)\n%s" % (tag, res["paths"], starved, feas, {k: str(v) for k, v in sorted(marg.items())}, src), None))
+                     "(feasible %s, marginal %s)\n%s" % (tag, res["paths"], starved, feas, {k: str(v) for k, v in sorted(marg.items())}, src),
+                     {"starved_field": (("a",), E["call"].rand_leaves[ia][1]), "starved": starved, "feasible": feas,
+                      "ranges": E["bounds"].get(("a",))}))
     rl = E["bounds"].get(("a",))
     fills = False
     if rl:
@@ -125,11 +127,22 @@ def judge_program(tag, prog, E, viol, cnt):
         tot = sum(marg.values())
         if any(marg.get(v) != tot / len(feas) for v in feas):
             viol.append(("marginal-not-uniform", "%s: feasible(a) = %s fills its inferred range %s but the exact marginal is %s\n%s" % (
-                tag, feas, rl, {k: str(v) for k, v in sorted(marg.items())}, src), None))
+                tag, feas, rl, {k: str(v) for k, v in sorted(marg.items())}, src), {"ranges": rl, "feasible": feas}))
+    # joint marginal of (a, b): in a chain a -> b -> c both are chosen before c
+    marg_ab = None
+    if ("b",) in paths:
+        ib = paths.index(("b",))
+        marg_ab = {}
+        for k, v in res["dist"].items():
+            if k in raised:
+                continue
+            marg_ab[(k[ia], k[ib])] = marg_ab.get((k[ia], k[ib]), Fraction(0)) + v
     comp = {}
     for s in sols:
         comp[s[ia]] = comp.get(s[ia], 0) + 1
-    return {"marg": marg, "feas": feas, "range": rl, "companions": comp, "raised": bool(raised)}
+    return {"marg": marg, "feas": feas, "range": rl, "companions": comp, "raised": bool(raised),
+            "width": E["call"].rand_leaves[ia][1][1], "marg_ab": marg_ab, "bounds": dict(E["bounds"]),
+            "feas_ab": sorted(set((s_[ia], s_[paths.index(("b",))]) for s_ in sols)) if ("b",) in paths else None}
 
 
 def exec_case(spec):
@@ -155,9 +168,24 @@ def exec_case(spec):
                              "(companions %s); feasible(a)=%s inferred range %s\n--- program 1\n%s\n--- program 2\n%s" % (
                                  {k: str(v) for k, v in sorted(a["marg"].items())}, a["companions"],
                                  {k: str(v) for k, v in sorted(b["marg"].items())}, b["companions"], a["feas"], a["range"],
-                                 SC.source_of({"prog": spec["progs"][0], "hist": []}), SC.source_of({"prog": spec["progs"][1], "hist": []})), None))
+                                 SC.source_of({"prog": spec["progs"][0], "hist": []}), SC.source_of({"prog": spec["progs"][1], "hist": []})),
+                             {"ranges": a["range"], "feasible": a["feas"], "width": a["width"]}))
         else:
             cnt.inc("pairs_skipped")
+        # chain a -> b -> c where only the b-c coupling differs: (a, b) are both chosen before c, so their joint
+        # distribution must not depend on how many values of c accompany each (a, b)
+        if (spec["progs"][0].get("vary") == "bc" and a["marg_ab"] is not None and b["marg_ab"] is not None
+                and a["feas_ab"] == b["feas_ab"] and a["bounds"] == b["bounds"] and not a["raised"] and not b["raised"]):
+            cnt.inc("chain_pairs_compared")
+            if a["marg_ab"] != b["marg_ab"]:
+                viol.append(("marginal-depends-on-later-variable",
+                             "chain a -> b -> c: the joint distribution of (a, b) differs between two programs that differ only in the b-c "
+                             "coupling: %s vs %s\n--- program 1\n%s\n--- program 2\n%s" % (
+                                 {str(k): str(v) for k, v in sorted(a["marg_ab"].items())},
+                                 {str(k): str(v) for k, v in sorted(b["marg_ab"].items())},
+                                 SC.source_of({"prog": spec["progs"][0], "hist": []}), SC.source_of({"prog": spec["progs"][1], "hist": []})),
+                             {"ranges": a["bounds"].get(("b",)), "feasible": sorted(set(x[1] for x in a["feas_ab"])),
+                              "width": [fd["w"] for fd in spec["progs"][0]["classes"]["C0"]["fields"] if fd["n"] == "b"][0], "chain": True}))
     res = {"counters": dict(cnt), "nontrivial": nontrivial,
            "source": "\n--- partner\n".join(SC.source_of({"prog": p, "hist": []}) for p in spec["progs"])}
     if viol:
